@@ -848,6 +848,82 @@ pub fn compare(t: &GenTree, schema: &Value, stats: &mut Stats) -> Vec<Failure> {
             }
         }
     }
+    // 5. objects embedded in the update mask tables: each must be the wowm object of that name IN THE TABLE'S OWN EXPANSION
+    for ns in Ns::all() {
+        let Ns::World(e) = ns else { continue };
+        let section = format!("{}_update_mask", e.name());
+        for f in t.ir[section.as_str()].as_array().cloned().unwrap_or_default() {
+            let fname = format!("{}/{}_{}", section, f["object_type"].as_str().unwrap_or("?"), f["name"].as_str().unwrap_or("?"));
+            let content = &f["data_type"]["content"];
+            let us = &content["update_mask_struct"];
+            if us.is_object() {
+                stats.facts += 1;
+                let name = us["name"].as_str().unwrap_or("").to_string();
+                let mut cmp = Cmp { t, ns, label: format!("{}:{}", fname, name), object: name.clone(), fails: Vec::new(), facts: 0 };
+                match t.u.lookup(ns, &name).and_then(|o| o.container().map(|c| (o, c))) {
+                    None => cmp.fail("embedded-object-unknown", "update_mask_struct", format!("no struct {} in {}", name, ns.text()), &Value::Null),
+                    Some((o, c)) => {
+                        let mut fs = Vec::new();
+                        collect_fields(&c.members, &mut fs);
+                        // word-wise layout: constant (padding) members have no entry
+                        let wn: Vec<&&Field> = fs.iter().filter(|f| f.value.is_none()).collect();
+                        let gm: Vec<Value> = us["members"].as_array().cloned().unwrap_or_default().iter().flat_map(|w| w.as_array().cloned().unwrap_or_default()).collect();
+                        cmp.facts += 1;
+                        if wn.len() != gm.len() {
+                            cmp.fail("embedded-struct-members", "update_mask_struct.members", format!("wowm {} ({}) has {} settable members, the IR {}", name, o.versions_text(), wn.len(), gm.len()), &Value::Null);
+                        }
+                        let mut sizer = wowm_model::sizes::Sizer::new(&t.u, ns);
+                        for (w, g) in wn.iter().zip(gm.iter()) {
+                            let p = format!("update_mask_struct.{}", w.name);
+                            cmp.eq_str("embedded-member-name", &p, &g["member"]["name"], &w.name);
+                            cmp.data_type(&p, &g["member"]["data_type"], &w.ty, &w.tags);
+                            let bytes = match &w.ty {
+                                TypeRef::Simple { name, upcast } => sizer.type_interval(name, upcast.as_deref()),
+                                TypeRef::Array { inner, size: ArraySize::Fixed(n) } => sizer.type_interval(inner, None).times(*n as u128, *n as u128),
+                                _ => wowm_model::sizes::Interval::new(0, u128::MAX),
+                            };
+                            cmp.facts += 1;
+                            if bytes.is_constant() && g["size"].as_u64().map(|x| x as u128) != Some(bytes.min) {
+                                cmp.fail("embedded-member-size", &p, format!("the wowm member is {} bytes, the IR says {}", bytes.min, g["size"]), g);
+                            }
+                        }
+                        let whole = sizer.object_interval(t.u.lookup_idx(ns, &name).unwrap());
+                        cmp.facts += 1;
+                        if whole.is_constant() && (us["sizes"]["minimum_size"].as_u64().map(|x| x as u128) != Some(whole.min) || us["sizes"]["maximum_size"].as_u64().map(|x| x as u128) != Some(whole.max)) {
+                            cmp.fail("embedded-struct-size", "update_mask_struct.sizes", format!("the wowm struct is {} bytes, the IR says {}", whole.min, us["sizes"]), &us["sizes"]);
+                        }
+                        cmp.object_tags(&us["tags"], o, &c.comments);
+                    }
+                }
+                stats.facts += cmp.facts;
+                stats.class("embedded.update_mask_struct");
+                let mut seen = BTreeSet::new();
+                for f in cmp.fails {
+                    if seen.insert(f.sig.clone()) {
+                        fails.push(f);
+                    }
+                }
+            }
+            let df = &content["definer"];
+            if df.is_object() {
+                stats.facts += 1;
+                let name = df["name"].as_str().unwrap_or("").to_string();
+                let mut cmp = Cmp { t, ns, label: format!("{}:{}", fname, name), object: name.clone(), fails: Vec::new(), facts: 0 };
+                match t.u.lookup(ns, &name).and_then(|o| o.definer().map(|d| (o, d))) {
+                    None => cmp.fail("embedded-object-unknown", "definer", format!("no enum or flag {} in {}", name, ns.text()), &Value::Null),
+                    Some((o, d)) => cmp.definer(df, o, d),
+                }
+                stats.facts += cmp.facts;
+                stats.class("embedded.definer");
+                let mut seen = BTreeSet::new();
+                for f in cmp.fails {
+                    if seen.insert(f.sig.clone()) {
+                        fails.push(f);
+                    }
+                }
+            }
+        }
+    }
     // 4. opcode table of the login messages
     if let Some(tab) = t.ir["login_version_opcodes"].as_object() {
         for (name, v) in tab {
